@@ -610,6 +610,18 @@ func genEvWorker(rng *rand.Rand) string {
 	}
 	m := 1 + rng.Intn(14)
 	ops := []string{"e0"}
+	if rng.Intn(12) == 0 {
+		// a long outage: an unbroken run of 16-60 failing reconciles of one set (each must be put back with backoff), then
+		// sometimes a success (which must clear the backoff) and another failure
+		k := 16 + rng.Intn(45)
+		for j := 0; j < k; j++ {
+			ops = append(ops, "f")
+		}
+		if rng.Intn(2) == 0 {
+			ops = append(ops, "s", "e0", "f", "f")
+		}
+		m = len(ops) + rng.Intn(4)
+	}
 	for len(ops) < m {
 		switch weighted(rng, 25, 25, 30, 10) {
 		case 0:
